@@ -100,7 +100,7 @@ Definition equidistant_test (sorted : list Q) : bool := all_equalZ (map round10 
 (* ---- the one-line switch --------------------------------------------------------------------
    false = the branch test as it is in the pinned tree (equal SPACING of the sorted frequencies only);
    true  = the repaired test, which also requires the smallest frequency to equal the spacing. *)
-Definition REPAIRED_BRANCH_TEST : bool := false.
+Definition REPAIRED_BRANCH_TEST : bool := true.
 
 Definition min_is_spacing (sorted : list Q) : bool :=
   match sorted with x :: y :: _ => (round10 (y - x - x) =? 0)%Z | _ => true end.
